@@ -3,7 +3,8 @@ import GB.C03.ProofsPath
   C03 — property theorems. Theorems only; helper lemmas live in Proofs*.lean.
   `Tmpl` is the parsed template (`gwbased.Parse`, property C20), `Table` the routing table as a list of
   (binding id, HTTP method, template) in iteration order, `routesOf` its routes with `MatchAndEscape` read
-  over the AST (`matchTmpl`); `C03_compiled_matcher` shows that is what the compiled pattern computes.
+  over the AST (`matchTmpl`); `C03_compiled_matcher` / `C03_code_table` show that is what the compiled pattern
+  computes and that the table built through `Compile` + `NewPattern` is this one.
 -/
 open GB GB.C03
 
@@ -34,7 +35,7 @@ theorem C03_matcher_other (t : Tmpl) (comps : List Bytes) (verb : Bytes) :
 /-- Compiler correctness, symbolic level: the op sequence `Compile` emits (`rawOps`, operands still strings),
     run on the gateway's stack machine (`runSym`: pos/stack/concat/capture, `tailLen` = ops after the `**`),
     computes exactly the structural matcher — for every template with at most one `**` and every component list.
-    (The resolution of pool / variable indices by `encode` + `npLoop` is tied by the differential run.) -/
+    (The resolution of pool / variable indices by `encode` + `npLoop` is `C03_compiled_matcher` below.) -/
 theorem C03_compiled_program (t : Tmpl) (hd : deepCount t.segs ≤ 1) (comps : List Bytes) :
     rawOps t.segs = (symOps t.segs).map SOp.raw ∧
     runSym (tailLenOfAtoms (atomsOf t.segs)) (symOps t.segs) comps [] [] = matchSegs t.segs comps := by
